@@ -310,3 +310,216 @@ def gen_inputs(rng, spec, extents, syms, style):
 def input_sets(rng, spec, syms, extents=None, max_extent=8):
     ext = extents or gen_extents(rng, spec, max_extent)
     return [gen_inputs(rng, spec, ext, syms, style) for style in ("dense", "sparse", "empty_one")]
+
+
+# --------------------------------------------------------------------- class O
+
+def holders_of(spec, expr=None):
+    """rank -> input tensors (of the expression) that hold it"""
+    expr = expr or spec["exprs"][0]
+    out = {}
+    for t in dense.expr_tensors(expr):
+        for r in spec["decl"][t]:
+            out.setdefault(r, []).append(t)
+    return out
+
+
+def occ_stack(rng, root, holders, extent, allow_shape=True):
+    dirs = []
+    syms = {}
+    if allow_shape and rng.random() < 0.3:
+        dirs.append("uniform_shape(%d)" % rng.choice([2, 3, 4]))
+    nocc = _choice_w(rng, [(1, 6), (2, 3)])
+    total = len(dirs) + nocc
+    leader = rng.choice(holders)
+    for j in range(nocc):
+        size = rng.choice([1, 2, 3, 5])
+        # all occupancy levels of one rank follow the same leader in the accepted language
+        if rng.random() < 0.2:
+            name = root + str(total - 1 - len(dirs))
+            syms[name] = size
+            dirs.append("uniform_occupancy(%s.%s)" % (leader, name))
+        else:
+            dirs.append("uniform_occupancy(%s.%d)" % (leader, size))
+    return dirs, syms
+
+
+def gen_occ(rng):
+    spec, meta = gen_plain(rng, max_ranks=4, allow_take=False, allow_out_only=False, product_only=True,
+                           min_ranks=2)
+    ranks = meta["ranks"]
+    extents = gen_extents(rng, spec)
+    hold = holders_of(spec)
+    part = {}
+    syms = {}
+    mode = _choice_w(rng, [("occ", 6), ("flatten", 4)])
+    groups = []
+    flat_info = None
+    if mode == "flatten":
+        cands = [t for t in dense.expr_tensors(spec["exprs"][0]) if len(spec["decl"][t]) >= 2]
+        if not cands:
+            mode = "occ"
+    if mode == "flatten":
+        t = rng.choice(cands)
+        nf = 2 if len(spec["decl"][t]) == 2 or rng.random() < 0.7 else 3
+        fr = rng.sample(spec["decl"][t], nf)
+        under_shape = rng.random() < 0.3
+        key_ranks = list(fr)
+        pre = None
+        if under_shape:
+            # sigma pattern: shape-split one of the ranks first, flatten its lower level
+            pre = rng.choice(fr)
+            part[pre] = ["uniform_shape(%d)" % rng.choice([2, 3, 4])]
+            key_ranks = [r + "0" if r == pre else r for r in fr]
+        flat_name = "".join(key_ranks)
+        part["(" + ", ".join(key_ranks) + ")"] = ["flatten()"]
+        nocc = _choice_w(rng, [(0, 3), (1, 5), (2, 2)])
+        if nocc:
+            leaders = [x for x in dense.expr_tensors(spec["exprs"][0]) if all(r in spec["decl"][x] for r in fr)]
+            leader = rng.choice(leaders)
+            part[flat_name] = ["uniform_occupancy(%s.%d)" % (leader, rng.choice([1, 2, 3, 5])) for _ in range(nocc)]
+        flat_levels = [flat_name + str(i) for i in range(nocc, -1, -1)] if nocc else [flat_name]
+        for r in ranks:
+            if r in fr:
+                continue
+            groups.append([r])
+        g = ([pre + "1"] if pre else []) + flat_levels
+        groups.append(g)
+        flat_info = {"tensor": t, "ranks": fr, "under_shape": pre, "nocc": nocc}
+    else:
+        chosen = [r for r in ranks if rng.random() < 0.5] or [rng.choice(ranks)]
+        for r in chosen:
+            dirs, s = occ_stack(rng, r, hold[r], extents[r])
+            if any(k in syms and syms[k] != v for k, v in s.items()):
+                continue
+            part[r] = dirs
+            syms.update(s)
+        groups = [levels_of(r, len(part[r])) if r in part else [r] for r in ranks]
+    spec["partitioning"] = {"Z": part}
+    if rng.random() < 0.8:
+        spec["loop_order"] = {"Z": loop_order_over(rng, groups, "ordered")}
+        lo_mode = "ordered"
+    else:
+        spec["loop_order"] = None
+        lo_mode = "default"
+    meta.update({"part": part, "syms": syms, "lo_mode": lo_mode, "extents": extents, "omode": mode,
+                 "flat": flat_info, "nlevels": sum(len(d) for d in part.values()), "npart": len(part)})
+    return spec, meta
+
+
+# --------------------------------------------------------------------- class A
+
+def _iterm(c, v):
+    return v if c == 1 else "%d * %s" % (c, v)
+
+
+def gen_affine(rng, allow_k3=False):
+    """Integer-affine accesses: convolution with stride/dilation, subsampling; 1-D or 2-D,
+    optional plain channel ranks; optional shape partitioning of the output rank with the
+    input rank following it."""
+    ndim = 1 if rng.random() < 0.7 else 2
+    dims = []
+    names = [("Q", "S", "W"), ("P", "R", "H")]
+    for d in range(ndim):
+        q, s, w = names[d]
+        has_filter = rng.random() < 0.85
+        a = rng.choice([1, 1, 1, 2, 2, 3])
+        b = rng.choice([1, 1, 1, 2, 3]) if has_filter else 0
+        if not has_filter:
+            a = rng.choice([1, 2, 2, 3])
+        dims.append({"q": q, "s": s if has_filter else None, "w": w, "a": a, "b": b})
+    chan_c = rng.random() < 0.25      # contracted channel rank C in I and F
+    chan_m = rng.random() < 0.25      # output channel rank M in F and O
+    any_filter = any(d["s"] for d in dims)
+    if not any_filter:
+        chan_c = chan_m = False
+    i_ranks, i_acc, f_ranks, f_acc, o_ranks, o_acc = [], [], [], [], [], []
+    if chan_m:
+        o_ranks.append("M"); o_acc.append("m"); f_ranks.append("M"); f_acc.append("m")
+    if chan_c:
+        i_ranks.append("C"); i_acc.append("c"); f_ranks.append("C"); f_acc.append("c")
+    for d in dims:
+        o_ranks.append(d["q"]); o_acc.append(d["q"].lower())
+        i_ranks.append(d["w"])
+        terms = [_iterm(d["a"], d["q"].lower())]
+        if d["s"]:
+            terms.append(_iterm(d["b"], d["s"].lower()))
+            f_ranks.append(d["s"]); f_acc.append(d["s"].lower())
+        i_acc.append(" + ".join(terms))
+    decl_items = [("I", i_ranks), ("O", o_ranks)]
+    facs = ["I[" + ", ".join(i_acc) + "]"]
+    if any_filter:
+        decl_items.insert(rng.randrange(3), ("F", f_ranks))
+        facs.append("F[" + ", ".join(f_acc) + "]")
+        if rng.random() < 0.5:
+            facs.reverse()
+    expr = "O[" + ", ".join(o_acc) + "] = " + " * ".join(facs)
+    spec = {"decl": dict(decl_items), "exprs": [expr], "rank_order": None, "partitioning": None,
+            "loop_order": None, "spacetime": None, "arch": None, "bindings": None, "format": None}
+    # extents
+    extents = {}
+    derived = {}
+    for d in dims:
+        extents[d["q"]] = rng.randint(1, 6)
+        terms = [(d["q"], d["a"])]
+        if d["s"]:
+            extents[d["s"]] = rng.randint(1, 4)
+            terms.append((d["s"], d["b"]))
+        derived[d["w"]] = (terms, 0)
+        extents[d["w"]] = sum(c * (extents[r] - 1) for r, c in terms) + 1
+    if chan_c:
+        extents["C"] = rng.randint(1, 3)
+    if chan_m:
+        extents["M"] = rng.randint(1, 3)
+    # partitioning of the output rank, input rank following
+    part = {}
+    groups = []
+    plevels = {}
+    for d in dims:
+        if rng.random() < 0.4:
+            halo = bool(d["s"])
+            nlev = 1
+            if rng.random() < 0.3 and (allow_k3 or not halo):
+                nlev = 2
+            dirs = []
+            for j in range(nlev):
+                kind = rng.choice(["uniform_shape", "uniform_shape", "nway_shape"])
+                dirs.append("%s(%d)" % (kind, rng.choice([1, 2, 3, 4])))
+            if nlev == 2:
+                # keep steps non-increasing
+                st = [step_of(x, extents[d["q"]], {}) for x in dirs]
+                if st[0] < st[1]:
+                    dirs.reverse()
+            part[d["q"]] = dirs
+            part[d["w"]] = ["follow(%s)" % d["q"]]
+            plevels[d["q"]] = nlev
+    # loop order
+    lo_mode = "default" if rng.random() < 0.2 else "explicit"
+    if lo_mode == "explicit":
+        for d in dims:
+            # the output rank must be looped itself (projecting into the output is rejected);
+            # the second loop rank is the filter rank or the accessed tensor's own rank
+            if d["s"]:
+                pick = [d["q"], rng.choice([d["s"], d["w"]])]
+                rng.shuffle(pick)
+            else:
+                pick = [d["q"]]
+            if d["q"] in plevels:
+                n = plevels[d["q"]]
+                # upper levels named after the output rank, bottom level may be any of the picked ranks
+                uppers = [d["q"] + str(i) for i in range(n, 0, -1)]
+                lowers = [(x + "0") if x in (d["q"], d["w"]) else x for x in pick]
+                groups.append(uppers + lowers)
+            else:
+                groups.append(pick)
+        if chan_c:
+            groups.append(["C"])
+        if chan_m:
+            groups.append(["M"])
+        spec["loop_order"] = {"O": loop_order_over(rng, groups, "ordered")}
+    if part:
+        spec["partitioning"] = {"O": part}
+    meta = {"ranks": default_loop_order(spec, "O"), "dims": dims, "extents": extents, "derived_extents": derived,
+            "part": part, "syms": {}, "lo_mode": lo_mode, "nlevels": sum(plevels.values()), "npart": len(plevels),
+            "out_only": [], "kind": "affine"}
+    return spec, meta
